@@ -130,12 +130,15 @@ def eval_case(case, keep_dir=None):
     """One evaluation: a (header model, config, argv shape) under several hash seeds.
     Returns dict(violation=None|{class, site, msg}, stats)."""
     model = case["model"] if "model" in case else hdrgen.gen_model(case["model_seed"])
-    header, foreign = hdrgen.render(model)
+    cpp = case.get("lang") == "cpp"
+    header, foreign = hdrgen.render_cpp(model) if cpp else hdrgen.render(model)
     config = CONFIGS[case["config"]]
+    if cpp and config is not None and "default_container" in config and "default_context" not in config:
+        config = None  # see _eval_wrap_case_cpp: this configuration names a type the C++ header model does not declare
     d = keep_dir or tempfile.mkdtemp(prefix="cglue-verif-gensim-")
     stats = {"tool_runs": 0, "fault.hash_seed": 0, "fault.subprocess_fail": 0}
     try:
-        hp = os.path.join(d, "input.h")
+        hp = os.path.join(d, "input.hpp" if cpp else "input.h")
         with open(hp, "w") as f:
             f.write(header)
         outs = {}
@@ -162,22 +165,47 @@ def eval_case(case, keep_dir=None):
             site = "contexts>=2" if len(model["contexts"]) >= 2 else "single context"
             return {"violation": {"class": "bindgen.nondeterministic_output", "site": site, "msg": "same header and configuration, different process hash seeds, different output: %s" % json.dumps(groups, sort_keys=True)}, "stats": stats}
         text = outs[case["hash_seeds"][0]].decode("utf-8", "replace")
+        if cpp:
+            # compile oracle, C++11: the header alone, then every instantiation a user can hold with
+            # the address of each of its member-function wrappers taken (templates are only checked
+            # when instantiated)
+            stats["cpp_headers"] = 1
+            out_hpp = first["out_path"] + "pp"
+            shutil.copyfile(first["out_path"], out_hpp)
+            import wrapsim
+            types, table = wrapsim.wrapper_table_cpp(model)
+            lines = ['#include <utility>', '#include "%s"' % out_hpp]
+            for k, (o, t) in enumerate(zip(types, table)):
+                lines.append("typedef %s Obj%d;" % (o["struct"], k))
+                lines.append("static void use_%d() { Obj%d *o = new Obj%d(); delete o;" % (k, k, k))
+                for n in sorted(set(t["names"].values())):
+                    lines.append("    { auto p = &Obj%d::%s; (void)p; }" % (k, n))
+                lines.append("}")
+            lines.append("int main() { return 0; }")
+            cp = os.path.join(d, "check.cpp")
+            with open(cp, "w") as f:
+                f.write("\n".join(lines) + "\n")
+            cc = subprocess.run(["c++", "-std=c++11", "-fsyntax-only", "-w", cp], stdout=subprocess.PIPE, stderr=subprocess.STDOUT, text=True)
+            stats["cc_runs"] = 1
+            if cc.returncode != 0:
+                errs = [l for l in cc.stdout.splitlines() if "error" in l]
+                return {"violation": {"class": "bindgen.cpp_compile", "site": "c++ -std=c++11", "msg": "the processed header (with its templates instantiated) is rejected by the C++ compiler: " + " | ".join(e[-220:] for e in errs[:3])}, "stats": stats}
         # compile oracle
         cp = os.path.join(d, "check.c")
         with open(cp, "w") as f:
             f.write('#include <string.h>\n#include "%s"\nint main(void) { return 0; }\n' % first["out_path"])
-        cc = subprocess.run(["cc", "-std=c99", "-fsyntax-only", "-Wno-unused", cp], stdout=subprocess.PIPE, stderr=subprocess.STDOUT, text=True)
-        stats["cc_runs"] = 1
-        if cc.returncode != 0:
+        cc = subprocess.run(["cc", "-std=c99", "-fsyntax-only", "-Wno-unused", cp], stdout=subprocess.PIPE, stderr=subprocess.STDOUT, text=True) if not cpp else None
+        stats["cc_runs"] = stats.get("cc_runs", 0) + (0 if cpp else 1)
+        if cc is not None and cc.returncode != 0:
             return {"violation": {"class": "bindgen.c_compile", "site": "cc -std=c99", "msg": "the processed header is rejected by the C compiler: " + " | ".join(cc.stdout.splitlines()[:4])}, "stats": stats}
         # the C-visible layout of every CGlue container and object is the one the model implies
         # (instance, context, temporaries that really exist; no zero-sized leftovers, nothing cut)
         lp = os.path.join(d, "layout.c")
         with open(lp, "w") as f:
             f.write('#include <string.h>\n#include "%s"\n%s\nint main(void) { return 0; }\n' % (first["out_path"], hdrgen.layout_asserts(model)))
-        cc = subprocess.run(["cc", "-std=c99", "-fsyntax-only", "-Wno-unused", lp], stdout=subprocess.PIPE, stderr=subprocess.STDOUT, text=True)
-        stats["cc_runs"] += 1
-        if cc.returncode != 0:
+        cc = subprocess.run(["cc", "-std=c99", "-fsyntax-only", "-Wno-unused", lp], stdout=subprocess.PIPE, stderr=subprocess.STDOUT, text=True) if not cpp else None
+        stats["cc_runs"] += 0 if cpp else 1
+        if cc is not None and cc.returncode != 0:
             errs = [l for l in cc.stdout.splitlines() if "error" in l]
             return {"violation": {"class": "bindgen.c_layout", "site": "container/object layout", "msg": "a CGlue structure of the processed header does not have the fields the input describes: " + " | ".join(errs[:3])}, "stats": stats}
         # foreign declarations preserved, unmodified, in order
@@ -229,6 +257,7 @@ def case_for(seed, i, tier):
         "hash_seeds": [base + j * 17 + 1 for j in range(k)],
         "probe_fail": r.chance(1, 10),
         "rewrite": r.chance(1, 4),
+        "lang": "cpp" if i % 4 == 3 else "c",
     }
 
 
@@ -347,7 +376,7 @@ def phase_bindgen(prop, tier, seed, report):
     report["jobs"].append({
         "engine": "gensim.bindgen", "binary": "cglue-bindgen (release, built from /repo)", "runs": n, "wall_s": round(wall, 2),
         "runs_per_hour": int(n / wall * 3600) if wall > 0 else 0,
-        "tool_processes": stats.get("tool_runs", 0), "cc_syntax_checks": stats.get("cc_runs", 0),
+        "tool_processes": stats.get("tool_runs", 0), "cc_syntax_checks": stats.get("cc_runs", 0), "cpp_mode_runs": stats.get("cpp_headers", 0),
         "distinct_outputs": len(digests), "distinct_model_shapes (traits, contexts, leftover, config, argv)": len(shapes),
         "faults_fired": {"hash_seed": stats.get("fault.hash_seed", 0), "subprocess_fail": stats.get("fault.subprocess_fail", 0), "rewrite_existing_output": stats.get("fault.rewrite_existing_output", 0)},
         "probes": {"tool_nonzero_when_cbindgen_fails": stats.get("probe.tool_nonzero_when_cbindgen_fails", 0)},
